@@ -203,7 +203,7 @@ int main(int argc, char **argv) {
         std::cout << "REPLAY-OK" << std::endl; return 0;
     }
     (void) check_slices;   // superseded by e3_slices (formula extracted from the sources); kept as a reference oracle
-    if (o.thorough) { o.max_exh_n = 5; o.nrandom = 600; o.shuffles = 2; } else { o.max_exh_n = 4; o.nrandom = 300; o.shuffles = 1; o.small_n = 3; }
+    if (o.thorough) { o.max_exh_n = 5; o.nrandom = 3000; o.shuffles = 3; } else { o.max_exh_n = 4; o.nrandom = 300; o.shuffles = 1; o.small_n = 3; }
     std::vector<int> Ps = {1, 2, 3, 4, 5, 7};
     long cases = 0;
     for_each_graph(o, [&](TGraph &t) {
